@@ -1,7 +1,7 @@
 (* Nesting of the diff view (property C16): the bars computeFlameGraphDiff lays out for two good trees nest, on the
    left and on the right side, inside the bar of their parent one level up. *)
-From Coq Require Import List NArith ZArith Bool Lia.
-From Qryn Require Import model.Pprof model.ProfTree model.ProfDiff proofs.PprofProofs proofs.ProfTreeProofs proofs.ProfDiffProofs
+From Coq Require Import List NArith ZArith Bool Lia Permutation.
+From Qryn Require Import model.Pprof model.ProfTree model.ProfDiff model.ProfSql proofs.PprofProofs proofs.ProfTreeProofs proofs.ProfDiffProofs
                          proofs.ProfSqlProofs proofs.ProfNestProofs.
 Import ListNotations.
 Open Scope Z_scope.
@@ -423,4 +423,212 @@ Proof.
   split; [exact Hg|]. split; [exact Hr|]. split; [exact (merged_kids the_limit ex_rows [])|]. split.
   - intros p d Hd Hn. exfalso. apply Hn. apply in_map. exact Hd.
   - vm_compute. reflexivity.
+Qed.
+
+(* ------------------------------------------------------------------ a stored tree is closed under parents *)
+Definition Closed (t : tree) : Prop := forall n, In n t -> n_parent n = 0%N \/ In (n_parent n) (map n_id t).
+
+Lemma bump_closed t p f i leaf vs zero :
+  Closed t -> (p = 0%N \/ In p (map n_id t)) -> Closed (bump t p f i leaf vs zero).
+Proof.
+  intros Hc Hp m Hm. destruct (bump_in _ _ _ _ _ _ _ _ Hm) as [[n [Hn [Ep Ei]]]|[Ep Ei]].
+  - rewrite Ep. destruct (Hc n Hn) as [H|H]; [left; exact H|right; apply bump_keeps; left; exact H].
+  - rewrite Ep. destruct Hp as [H|H]; [left; exact H|right; apply bump_keeps; left; exact H].
+Qed.
+
+Lemma walk_closed h : forall rest t p d vs zero,
+  Closed t -> (p = 0%N \/ In p (map n_id t)) -> Closed (walk h t p d rest vs zero).
+Proof.
+  induction rest as [|f rest IH]; intros t p d vs zero Hc Hp; cbn [walk]; [exact Hc|].
+  apply IH; [apply bump_closed; assumption|]. right. apply bump_keeps. right. reflexivity.
+Qed.
+
+Lemma post_process_closed h nt ss : Closed (post_process h nt ss).
+Proof.
+  unfold post_process.
+  assert (G : forall ss t, Closed t -> Closed (fold_left (add_sample h (zero_vals nt)) ss t)).
+  { clear ss. induction ss as [|s ss IH]; intros t Hc; [exact Hc|]. cbn [fold_left]. apply IH.
+    apply walk_closed; [exact Hc|left; reflexivity]. }
+  apply G. intros n [].
+Qed.
+
+(* ------------------------------------------------------------------ what ingest gives about the rows of a set of profiles,
+   relative to ANY triple set T that contains their walked triples and on which node ids determine the parent *)
+Lemma ingest_rows_facts h na T (Ps : list stored) :
+  (forall P, In P Ps -> incl (triples h (normalize na (sp_samples P))) T) ->
+  parent_determined h T -> Forall sel_ok Ps ->
+  sumZ (map (prof_depth_weight na) Ps) < two63 -> Forall (fun P => 0 <= prof_depth_weight na P) Ps ->
+  let R := concat (map (stored_rows h na) Ps) in
+  (forall r, In r R -> 0 <= r_self r /\ 0 <= r_total r) /\
+  sumZ (map r_self R) < two63 /\ sumZ (map r_total R) < two63 /\
+  (forall r, In r R -> r_id r <> 0%N) /\ rconserves R /\ Forall row_in_range R /\
+  (forall r, In r R -> exists d, In (r_parent r, r_fn r, d) T /\ r_id r = node_id h (r_parent r) (r_fn r) d) /\
+  (forall r, In r R -> r_parent r = 0%N \/ exists r'', In r'' R /\ r_id r'' = r_parent r).
+Proof.
+  intros Hincl Hpd Hsel Hbound Hpos R.
+  assert (Hle : forall P, In P Ps -> prof_depth_weight na P <= sumZ (map (prof_depth_weight na) Ps)).
+  { clear - Hpos. induction Ps as [|Q Ps IH]; intros P HP; [contradiction|]. inversion Hpos as [|? ? Hq Hrest]; subst.
+    cbn [map]. unfold sumZ in *. cbn [fold_right].
+    assert (0 <= fold_right Z.add 0 (map (prof_depth_weight na) Ps)).
+    { clear - Hrest. induction Hrest as [|x l Hx _ IHl]; cbn [map fold_right]; lia. }
+    destruct HP as [->|HP]; [lia|]. specialize (IH Hrest P HP). lia. }
+  assert (Hfacts : forall P, In P Ps ->
+     (forall r, In r (stored_rows h na P) -> 0 <= r_self r <= r_total r /\ r_id r <> 0%N /\
+        exists d, In (r_parent r, r_fn r, d) T /\ r_id r = node_id h (r_parent r) (r_fn r) d) /\
+     sumZ (map r_total (stored_rows h na P)) <= prof_depth_weight na P).
+  { intros P HP. apply stored_rows_facts; [exact (Hincl P HP)|exact (proj1 (Forall_forall _ _) Hsel P HP)|].
+    pose proof (Hle P HP). lia. }
+  assert (HinR : forall r, In r R -> exists P, In P Ps /\ In r (stored_rows h na P)).
+  { intros r Hr. unfold R in Hr. apply in_concat in Hr. destruct Hr as [l [Hl Hr]]. apply in_map_iff in Hl.
+    destruct Hl as [P [<- HP]]. exists P. split; assumption. }
+  assert (HRin : forall P r, In P Ps -> In r (stored_rows h na P) -> In r R).
+  { intros P r HP Hr. unfold R. apply in_concat. exists (stored_rows h na P). split; [apply in_map; exact HP|exact Hr]. }
+  assert (Hbt : sumZ (map r_total R) < two63).
+  { assert (G : sumZ (map r_total R) <= sumZ (map (prof_depth_weight na) Ps)).
+    { assert (Hsum : forall P, In P Ps -> sumZ (map r_total (stored_rows h na P)) <= prof_depth_weight na P)
+        by (intros P HP; exact (proj2 (Hfacts P HP))).
+      unfold R. clear - Hsum. induction Ps as [|P Ps IH]; [cbn; lia|].
+      cbn [map concat]. rewrite map_app, sumZ_app. unfold sumZ at 3. cbn [fold_right]. fold (sumZ (map (prof_depth_weight na) Ps)).
+      pose proof (Hsum P (or_introl eq_refl)).
+      assert (sumZ (map r_total (concat (map (stored_rows h na) Ps))) <= sumZ (map (prof_depth_weight na) Ps))
+        by (apply IH; intros Q HQ; apply Hsum; right; exact HQ). lia. }
+    lia. }
+  split; [intros r Hr; destruct (HinR r Hr) as (P & HP & HrP); destruct (proj1 (Hfacts P HP) r HrP) as (H1 & _); lia|].
+  split.
+  { assert (G : 0 <= sumZ (map r_self R) <= sumZ (map r_total R)).
+    { apply sum_le_pointwise. intros r Hr. destruct (HinR r Hr) as (P & HP & HrP). exact (proj1 (proj1 (Hfacts P HP) r HrP)). }
+    lia. }
+  split; [exact Hbt|].
+  split; [intros r Hr; destruct (HinR r Hr) as (P & HP & HrP); exact (proj1 (proj2 (proj1 (Hfacts P HP) r HrP)))|].
+  split.
+  { unfold R. apply rconserves_concat. apply Forall_map. apply Forall_forall. intros P HP.
+    apply (stored_rows_conserve h na P). split.
+    - intros p f d p' f' d' H1 H2. apply Hpd; apply (Hincl P HP); assumption.
+    - pose proof (proj1 (Forall_forall _ _) Hsel P HP) as Hs. unfold sel_ok in Hs. destruct (sp_sel P); [exact (proj1 Hs)|exact I]. }
+  split.
+  { apply Forall_forall. intros r Hr. destruct (HinR r Hr) as (P & HP & HrP).
+    pose proof (stored_rows_in_range h na P) as HPr. rewrite Forall_forall in HPr. exact (HPr r HrP). }
+  split; [intros r Hr; destruct (HinR r Hr) as (P & HP & HrP); exact (proj2 (proj2 (proj1 (Hfacts P HP) r HrP)))|].
+  intros r Hr. destruct (HinR r Hr) as (P & HP & HrP). unfold stored_rows, stored_tree in HrP.
+  apply in_map_iff in HrP. destruct HrP as [n [<- Hn]].
+  destruct (post_process_closed h (sp_nt P) (normalize na (sp_samples P)) n Hn) as [H0|Hin].
+  - left. destruct (sp_sel P); exact H0.
+  - right. apply in_map_iff in Hin. destruct Hin as [m [Hm Hmin]].
+    exists (project_row (sp_sel P) m). split.
+    + apply (HRin P); [exact HP|]. unfold stored_rows, stored_tree. apply in_map. exact Hmin.
+    + destruct (sp_sel P); exact Hm.
+Qed.
+
+(* the rows handed to MergeTrie carry the key sums of R: any order, raw or grouped *)
+Lemma handover R rows : Permutation rows R \/ Permutation rows (group_rows R) -> Forall row_in_range R ->
+  Forall row_in_range rows /\ (forall p i, has_key rows p i = has_key R p i) /\
+  (forall p i, eqm (sum_self rows p i) (sum_self R p i)) /\ (forall p i, eqm (sum_total rows p i) (sum_total R p i)).
+Proof.
+  intros [Hperm|Hperm] HRr.
+  - split; [apply (Permutation_Forall (Permutation_sym Hperm)); exact HRr|].
+    split; [intros p i; apply has_key_perm; exact Hperm|].
+    split; intros p i; apply eqm_of_eq; [unfold sum_self|unfold sum_total]; apply sumZ_map_perm; exact Hperm.
+  - split; [apply (Permutation_Forall (Permutation_sym Hperm)); apply group_rows_range; exact HRr|].
+    split; [intros p i; rewrite (has_key_perm _ _ p i Hperm); apply group_rows_has_key|].
+    split; intros p i.
+    + unfold sum_self at 1. rewrite (sumZ_map_perm _ _ _ Hperm). exact (proj1 (group_key_sums R p i)).
+    + unfold sum_total at 1. rewrite (sumZ_map_perm _ _ _ Hperm). exact (proj2 (group_key_sums R p i)).
+Qed.
+
+Lemma has_key_row R p i : has_key R p i = true -> exists r, In r R /\ r_parent r = p /\ r_id r = i.
+Proof.
+  unfold has_key. intros H. apply existsb_exists in H. destruct H as [r [Hr Hk]]. unfold key_eqb in Hk.
+  apply andb_prop in Hk. destruct Hk as [H1 H2]. apply N.eqb_eq in H1, H2. exists r. tauto.
+Qed.
+Lemma row_has_key R r : In r R -> has_key R (r_parent r) (r_id r) = true.
+Proof. intros H. unfold has_key. apply existsb_exists. exists r. split; [exact H|]. unfold key_eqb. rewrite !N.eqb_refl. reflexivity. Qed.
+
+(* neither merged tree holds children under an id the other has under a parent where it lacks it *)
+Lemma no_orphans_from_rows limit RL rowsL fsL RR rowsR fsR :
+  Z.of_nat (length rowsL) <= limit -> Forall row_in_range rowsL ->
+  (forall p i, has_key rowsL p i = has_key RL p i) ->
+  (forall p i, eqm (sum_self rowsL p i) (sum_self RL p i)) -> (forall p i, eqm (sum_total rowsL p i) (sum_total RL p i)) ->
+  (forall r, In r RL -> 0 <= r_self r /\ 0 <= r_total r) -> sumZ (map r_self RL) < two63 -> sumZ (map r_total RL) < two63 ->
+  Z.of_nat (length rowsR) <= limit -> Forall row_in_range rowsR ->
+  (forall p i, has_key rowsR p i = has_key RR p i) ->
+  (forall p i, eqm (sum_self rowsR p i) (sum_self RR p i)) -> (forall p i, eqm (sum_total rowsR p i) (sum_total RR p i)) ->
+  (forall r, In r RR -> 0 <= r_self r /\ 0 <= r_total r) -> sumZ (map r_self RR) < two63 -> sumZ (map r_total RR) < two63 ->
+  (forall r r', In r RL -> In r' RR -> r_id r = r_id r' -> r_parent r = r_parent r') ->
+  (forall r, In r RR -> r_id r <> 0%N) ->
+  (forall r, In r RL -> r_parent r = 0%N \/ exists r'', In r'' RL /\ r_id r'' = r_parent r) ->
+  no_orphans (m_nodes (merge_trie limit new_tree rowsL fsL)) (m_nodes (merge_trie limit new_tree rowsR fsR)).
+Proof.
+  intros L1 L2 L3 L4 L5 L6 L7 L8 R1 R2 R3 R4 R5 R6 R7 R8 Hj Hnz Hcl p d Hd Hn.
+  destruct (child_vals limit RR rowsR fsR R1 R2 R3 R4 R5 R6 R7 R8 p d Hd) as (Hk & _ & _).
+  destruct (has_key_row RR p (t_id d) Hk) as (rd & Hrd & Hrdp & Hrdi).
+  destruct (children (m_nodes (merge_trie limit new_tree rowsL fsL)) (t_id d)) as [|c' cs] eqn:E; [reflexivity|].
+  exfalso.
+  assert (Hc' : In c' (children (m_nodes (merge_trie limit new_tree rowsL fsL)) (t_id d))) by (rewrite E; left; reflexivity).
+  destruct (child_vals limit RL rowsL fsL L1 L2 L3 L4 L5 L6 L7 L8 (t_id d) c' Hc') as (Hk' & _ & _).
+  destruct (has_key_row RL (t_id d) (t_id c') Hk') as (r' & Hr' & Hr'p & _).
+  destruct (Hcl r' Hr') as [H0|(r'' & Hr'' & Hr''i)].
+  - apply (Hnz rd Hrd). congruence.
+  - assert (Hq : r_parent r'' = p).
+    { rewrite <- Hrdp. apply Hj; [exact Hr''|exact Hrd|congruence]. }
+    apply Hn. pose proof (covered limit RL rowsL fsL L1 L2 L3 L4 L5 L6 L7 L8 (r_parent r'') (r_id r'') (row_has_key RL r'' Hr'')) as Hcov.
+    rewrite Hq in Hcov. replace (t_id d) with (r_id r'') by congruence. exact Hcov.
+Qed.
+
+(* From ingest to the nested DIFF view.  Two sets of ingested profiles (the left and the right side of RenderDiff) whose
+   node ids determine the parent jointly over BOTH sets, read on a sample type with non-negative values, each side's sum
+   of value x stack depth below 2^63; each side's stored rows handed to MergeTrie in any order, raw or grouped: the bars
+   computeFlameGraphDiff lays out nest, on the left and on the right side, inside their parent's bar one level up. *)
+Theorem diff_nests_from_ingest h na limit (PsL PsR : list stored) rowsL rowsR fsL fsR :
+  let RL := concat (map (stored_rows h na) PsL) in
+  let RR := concat (map (stored_rows h na) PsR) in
+  parent_determined h (all_triples h na (PsL ++ PsR)) ->
+  Forall sel_ok PsL -> Forall sel_ok PsR ->
+  sumZ (map (prof_depth_weight na) PsL) < two63 -> sumZ (map (prof_depth_weight na) PsR) < two63 ->
+  Forall (fun P => 0 <= prof_depth_weight na P) PsL -> Forall (fun P => 0 <= prof_depth_weight na P) PsR ->
+  Permutation rowsL RL \/ Permutation rowsL (group_rows RL) ->
+  Permutation rowsR RR \/ Permutation rowsR (group_rows RR) ->
+  Z.of_nat (length rowsL) <= limit -> Z.of_nat (length rowsR) <= limit ->
+  dnested (ds_levels (diff_bars (merge_trie limit new_tree rowsL fsL) (merge_trie limit new_tree rowsR fsR))).
+Proof.
+  intros RL RR Hpd HsL HsR HbL HbR HpL HpR HrowsL HrowsR HlimL HlimR.
+  set (T := all_triples h na (PsL ++ PsR)) in *.
+  assert (HiL : forall P, In P PsL -> incl (triples h (normalize na (sp_samples P))) T).
+  { intros P HP y Hy. unfold T, all_triples. apply in_flat_map. exists P. split; [apply in_or_app; left; exact HP|exact Hy]. }
+  assert (HiR : forall P, In P PsR -> incl (triples h (normalize na (sp_samples P))) T).
+  { intros P HP y Hy. unfold T, all_triples. apply in_flat_map. exists P. split; [apply in_or_app; right; exact HP|exact Hy]. }
+  destruct (ingest_rows_facts h na T PsL HiL Hpd HsL HbL HpL) as (A1 & A2 & A3 & A4 & A5 & A6 & A7 & A8).
+  destruct (ingest_rows_facts h na T PsR HiR Hpd HsR HbR HpR) as (B1 & B2 & B3 & B4 & B5 & B6 & B7 & B8).
+  fold RL in A1, A2, A3, A4, A5, A6, A7, A8. fold RR in B1, B2, B3, B4, B5, B6, B7, B8.
+  destruct (handover RL rowsL HrowsL A6) as (L2 & L3 & L4 & L5).
+  destruct (handover RR rowsR HrowsR B6) as (R2 & R3 & R4 & R5).
+  (* ids determine the parent on all rows of both sides *)
+  assert (Hj : forall X Y r r', (forall x, In x X -> exists d, In (r_parent x, r_fn x, d) T /\ r_id x = node_id h (r_parent x) (r_fn x) d) ->
+                 (forall y, In y Y -> exists d, In (r_parent y, r_fn y, d) T /\ r_id y = node_id h (r_parent y) (r_fn y) d) ->
+                 In r X -> In r' Y -> r_id r = r_id r' -> r_parent r = r_parent r').
+  { intros X Y r r' HX HY Hr Hr' Hid. destruct (HX r Hr) as (d & HT & Hd). destruct (HY r' Hr') as (d' & HT' & Hd').
+    apply (Hpd _ _ _ _ _ _ HT HT'). congruence. }
+  destruct (merged_tree_good limit RL rowsL fsL HlimL L2 L3 L4 L5 A1 A2 A3 (fun r r' => Hj RL RL r r' A7 A7) A4 A5) as [G1 T1].
+  destruct (merged_tree_good limit RR rowsR fsR HlimR R2 R3 R4 R5 B1 B2 B3 (fun r r' => Hj RR RR r r' B7 B7) B4 B5) as [G2 T2].
+  apply diff_levels_nest_trees; try assumption.
+  - exact (merged_kids limit rowsL fsL).
+  - exact (merged_kids limit rowsR fsR).
+  - apply (no_orphans_from_rows limit RL rowsL fsL RR rowsR fsR); try assumption. exact (fun r r' => Hj RL RR r r' A7 B7).
+  - apply (no_orphans_from_rows limit RR rowsR fsR RL rowsL fsL); try assumption. exact (fun r r' => Hj RR RL r r' B7 A7).
+Qed.
+
+Lemma merge_nodes_facts (n1 n2 : list (N * list tnode)) (k : N) :
+  map t_id (children (fst (merge_nodes n1 n2)) k) = map t_id (children (snd (merge_nodes n1 n2)) k) /\
+  sum_total_of (children (fst (merge_nodes n1 n2)) k) = sum_total_of (children n1 k) /\
+  sum_total_of (children (snd (merge_nodes n1 n2)) k) = sum_total_of (children n2 k).
+Proof. split; [apply merge_nodes_aligned|apply merge_nodes_sums]. Qed.
+
+Lemma ex_diff_ingest_hypotheses :
+  parent_determined city16 (all_triples city16 0%N (firstn 1 ex_Ps ++ skipn 1 ex_Ps)) /\
+  Forall sel_ok (firstn 1 ex_Ps) /\ Forall sel_ok (skipn 1 ex_Ps) /\
+  sumZ (map (prof_depth_weight 0%N) (firstn 1 ex_Ps)) < two63 /\ sumZ (map (prof_depth_weight 0%N) (skipn 1 ex_Ps)) < two63.
+Proof.
+  destruct ex_Ps_hypotheses as (H1 & H2 & _). split; [exact H1|].
+  inversion H2 as [|? ? Ha Hb]; subst. inversion Hb as [|? ? Hc Hd]; subst.
+  split; [constructor; [exact Ha|constructor]|]. split; [constructor; [exact Hc|constructor]|].
+  split; vm_compute; reflexivity.
 Qed.
